@@ -1,7 +1,7 @@
 (* C06/Properties.v — property theorems only (each closed by [exact lemma] and followed by
    [Print Assumptions]).  Model: C06/Model.v (the code after fix commits 3a7f18b, 811f017, 2c8a29b). *)
 From Coq Require Import String Permutation Morphisms.
-From RM Require Import C06.Model C06.GenModel C06.Proofs C06.Proofs2 C06.Proofs3 C06.Proofs4 C06.Proofs5 C06.Proofs6 C06.Driver C06.GenDriver.
+From RM Require Import C06.Model C06.GenModel C06.Proofs C06.Proofs2 C06.Proofs3 C06.Proofs4 C06.Proofs5 C06.Proofs6 C06.Proofs7 C06.Driver C06.GenDriver Gen.UnwindConsts.
 Open Scope Z_scope.
 
 (* No Panic and no OutOfFuel: for ALL rule texts (arbitrary byte strings), every walker (any
@@ -357,3 +357,13 @@ Example c06_nonvacuous_gen :
   | _ => False
   end.
 Proof. vm_compute. repeat split; reflexivity. Qed.
+
+(* The per-architecture tables of the real-walker model (c06_real_walker_refines_spec quantifies over them) are
+   the ones translate/unwind_consts.py regenerates from the code: CpuContext::REGISTERS, the memoize_register
+   aliases (x29~fp, x30~lr), size_of::<Register>(), the names given to set_cfa / set_ra, CALLEE_SAVED_REGS. *)
+Theorem c06_arch_tables_pinned :
+  x86 = arch_of_consts x86_pw x86_registers [] x86_sp_name x86_ip_name x86_callee_saved /\
+  amd64 = arch_of_consts amd64_pw amd64_registers [] amd64_sp_name amd64_ip_name amd64_callee_saved /\
+  arm64 = arch_of_consts arm64_pw arm64_registers arm64_aliases arm64_cfi_sp_name arm64_cfi_ip_name arm64_callee_saved.
+Proof. exact arch_tables_pinned. Qed.
+Print Assumptions c06_arch_tables_pinned.
